@@ -156,6 +156,9 @@ func genEngine(rt *rapid.T) engCase {
 			mk("lastbefore", true, ts)
 		}
 	}
+	if m, ok := (Win{From: start * nsSec, To: c.EndS * nsSec}).middleDay(); ok && m/nsSec <= c.EndS-c.StepS {
+		mk("mid", true, m+r64(rt, 0, 3600, "midOff")*nsSec)
+	}
 	// poison: outside every selector's window (with a margin of ten minutes)
 	free := func(ts int64) bool {
 		for _, s := range q.Sels {
@@ -309,6 +312,9 @@ func predEngine(c engCase, o *evid.Obs) error {
 				return fmt.Errorf("%s misses %s although a selector's window holds its samples\n%s", ctx, what, sqlDump(stmts))
 			}
 			o.Tag("found-inside")
+			if sid == "mid" {
+				o.Tag("middle-day-only:found")
+			}
 			if sid == "lastbefore" {
 				o.Tag("last-sample-before-last-day:labels-found")
 			}
